@@ -42,6 +42,17 @@ type Owner struct {
 	Marks []STag  `gorm:"many2many:owner_marks"` // through a join model that is itself soft-deleted (OwnerMark)
 }
 
+// ownerHook: while set, Owner's BeforeDelete deletes the owner's items through the handle it is given (a nested
+// statement on a fresh statement: whether it is Unscoped is decided by PropagateUnscoped)
+var ownerHook bool
+
+func (o *Owner) BeforeDelete(tx *gorm.DB) error {
+	if !ownerHook {
+		return nil
+	}
+	return tx.Where("owner_id = ?", o.ID).Delete(&SItem{}).Error
+}
+
 // OwnerMark is the join model of Owner.Marks: a link is a record with a soft-delete field of its own
 type OwnerMark struct {
 	OwnerID   int64 `gorm:"primaryKey"`
@@ -711,6 +722,48 @@ func runAssocDelete(c *core.Ctx, path string, d assocData) (problems []string) {
 	return
 }
 
+// runHookDelete: an Unscoped delete of an owner whose BeforeDelete hook deletes the owner's items through its handle.
+// With PropagateUnscoped (a Session flag, with or without NewDB in the same call) the nested delete is Unscoped too:
+// the items go physically, marked ones included. Without the flag the nested delete is an ordinary one.
+func runHookDelete(c *core.Ctx, path string, d assocData) (problems []string) {
+	add := func(f string, a ...interface{}) { problems = append(problems, fmt.Sprintf(f, a...)) }
+	count := func(q string, a ...interface{}) int64 { return vdb.Ints(H.SQL, q, a...)[0] }
+	const o = int64(1)
+	all := count("SELECT count(*) FROM s_items WHERE owner_id = ?", o)
+	other := count("SELECT count(*) FROM s_items WHERE owner_id <> ?", o)
+	root := H.DB.Session(&gorm.Session{})
+	switch path {
+	case "HookDeletePropagate":
+		root = root.Session(&gorm.Session{PropagateUnscoped: true})
+	case "HookDeletePropagateNewDB":
+		// a fresh handle derived from a used one, with the flag in the same call
+		root = root.Where("1 = 1").Session(&gorm.Session{NewDB: true, PropagateUnscoped: true})
+	}
+	ownerHook = true
+	err := root.Unscoped().Delete(&Owner{ID: o}).Error
+	ownerHook = false
+	if err != nil {
+		add("error: %v", err)
+		return
+	}
+	left := count("SELECT count(*) FROM s_items WHERE owner_id = ?", o)
+	live := count("SELECT count(*) FROM s_items WHERE owner_id = ? AND deleted_at IS NULL", o)
+	if path == "HookDeleteNoPropagate" {
+		if left != all || live != 0 {
+			add("without PropagateUnscoped the hook's delete is an ordinary one: %d of %d rows left, %d live (want all rows left, none live)", left, all, live)
+		}
+	} else if left != 0 {
+		add("%s: the hook's delete under an Unscoped operation left %d of the owner's %d item rows (%d live): want them removed physically", path, left, all, live)
+	}
+	if n := count("SELECT count(*) FROM s_items WHERE owner_id <> ?", o); n != other {
+		add("items of other owners changed: %d -> %d", other, n)
+	}
+	if n := count("SELECT count(*) FROM owners WHERE id = ?", o); n != 0 {
+		add("the owner row is still there")
+	}
+	return
+}
+
 // runAssocMarks: association-mode Delete / Clear on a many-to-many relation whose links are soft-delete records:
 // scoped, a link is marked (and a link marked before keeps its mark); with Unscoped the link rows are removed
 // physically, marked or not. The tags themselves are never touched.
@@ -1184,11 +1237,14 @@ func run(c *core.Ctx) {
 	// deleting an owner together with selected relations (last: it consumes the graph)
 	if r.Bool() {
 		p := core.Pick(r, []string{"DeleteSelectItems", "UnscopedDeleteSelectItems", "UnscopedDeleteSelectPet", "DeleteSelectPet", "UnscopedDeleteSelectBoth",
-			"AssocDeleteMarks", "UnscopedAssocDeleteMarks", "UnscopedAssocDeleteMarks", "UnscopedAssocClearMarks", "AssocClearMarks"})
+			"AssocDeleteMarks", "UnscopedAssocDeleteMarks", "UnscopedAssocDeleteMarks", "UnscopedAssocClearMarks", "AssocClearMarks",
+			"HookDeletePropagate", "HookDeletePropagateNewDB", "HookDeleteNoPropagate"})
 		c.Logf("ASSOC %s", p)
 		var problems []string
 		if strings.Contains(p, "Marks") {
 			problems = runAssocMarks(c, p, d)
+		} else if strings.HasPrefix(p, "HookDelete") {
+			problems = runHookDelete(c, p, d)
 		} else {
 			problems = runAssocDelete(c, p, d)
 		}
